@@ -51,6 +51,12 @@ func optsUnmodified(c *Ctx, lr *limitRoles, rule string) {
 				c.R.Check(okPlain, rule, p.FnKey(ctor)+"#opts", p.InstrPos(in), "options stored as given", "the constructor stores modified options ("+s.String()+"): the discipline then runs at a different rate than the one configured")
 			}
 		}
+		if v := p.virtualOptions(lr.d.Named); !found && v != nil {
+			// no options field: the struct caches the single options it needs (see derived.go); what
+			// each cache holds is what the other rules see in place of the field
+			c.R.Check(v.Op == "param", rule, p.FnKey(ctor)+"#opts", p.Pos(ctor.Pos()), "the needed options are cached as given", "the constructor caches options read from modified options ("+v.String()+"): the discipline then runs at a different rate than the one configured")
+			continue
+		}
 		if !found {
 			c.R.Fail(rule, p.FnKey(ctor)+"#opts", p.Pos(ctor.Pos()), "UNDECIDED: the constructor does not store the options")
 		}
